@@ -7,7 +7,20 @@ E1 = "CrossHair symbolic execution of the real liquer bytecode (z3), own driver 
 TRUST = ("crosshair-tool 0.0.110 + z3 5.1.0 models of Python builtins; the stated bounds; the listed environment stubs; "
          "every counterexample is replayed on the untraced code before it is reported")
 
+EV = "CrossHair/z3 bounded symbolic execution of one level of the real Context.evaluate (EVAL-STEP induction lemma: recursive evaluation replaced by an arbitrary prepared state)"
 CHECKS = {
+ "C04": dict(level="model_checking", technique=EV + "; relational comparison cache vs NoCache",
+             text="Step lemma: for each query of the family (typed/volatile/failing/bad-argument/state-variable/cache-disabling/in-place-mutating commands, as-typed vs canonical spelling, trailing file name, extra parameters, sub-evaluation from a command) and every predecessor state (symbolic data, error/volatile/caching flags, variable) and every cache pre-state for Q, the outcome (value or failure, volatility, variables, file name, extension) with the cache equals the outcome with NoCache, and the predecessor is requested with the same cache object. Quick: MemoryCache and Memory+Memory; thorough: 10 in-process configurations incl. conditional wrappers, StoreCache, FileCache/ShimFS.",
+             design="§4 C04"),
+ "C05": dict(level="model_checking", technique=EV + "; cache inspected for every listed key and for the canonical and as-typed spelling",
+             text="Step lemma: after one evaluation step from any predecessor state and any cache pre-state satisfying the invariant, every key for which get() serves data serves exactly the value of a fresh evaluation of that key; a failed, volatile (volatile command / volatile predecessor / extra parameters) or caching-disabled result is not retrievable; a cacheable success is filed under the canonical text.",
+             design="§4 C05"),
+ "C09": dict(level="model_checking", technique=EV + "; call log and stub log as observers",
+             text="Step lemma: with a ready entry for Q no command is executed and the predecessor is never requested (the stub *is* the cached prefix, so 'only commands right of the longest cached prefix run' follows level by level); after a cacheable miss the cache contains Q and serves its value; the predecessor is requested exactly once with the same cache.",
+             design="§4 C09"),
+ "C06": dict(level="model_checking", technique=EV + "; plus State.get kernel over symbolic error logs",
+             text="(a) an error predecessor state propagates: error result, get() raises, no command executed, nothing cached; (b) each failure kind (command raises, unknown command, unconvertible/missing/surplus argument, failing absolute/relative link, missing resource, unconvertible symbolic extra argument) yields an error state or a raised evaluation, never a value; (c) the failure carries the query text and the offset of the failing action/link argument as positioned by the real parser; (d) State.get re-raises with the last error entry's position and query for every log of length <=2 (thorough 3).",
+             design="§4 C06"),
  "C07": dict(level="model_checking", technique="CrossHair/z3 bounded symbolic execution: one inductive step of the real store classes from every valid pre-state, all observers compared with a dictionary reference model",
              text="STEP lemma: for MemoryStore, FileStore (ShimFS), ProxyStore, IndexerStore, OverlayStore with empty fall-back, MountPointStore and the default global composition (quick: 4 of the 9 configurations), from each of 28 valid pre-states over a 6-key universe, each well-formed operation (store, metadata update, remove, makedir, recursive / empty removedir, reads) with payload length 0..2 and symbolic caller metadata leaves a state that equals the reference model through every observer (bytes, caller fields, key/name/is_dir/size/md5, listings, frame condition). The path tree is exhausted per (configuration, operation).",
              design="§4 C07"),
